@@ -18,7 +18,7 @@ import time
 from lib import vlib
 
 SETUP_BUILDS = [{"name": "lockx"}, {"name": "c15", "race": True, "test_pkg": "./server"}]
-COQ_TARGETS = ["Race/Properties_C15.v", "Race/Lockset.v", "Race/Tight.v", "Race/PsView.v", "Race/Generated_Accesses.v"]
+COQ_TARGETS = ["Race/Properties_C15.v", "Race/Lockset.v", "Race/Tight.v", "Race/Refcount.v", "Race/PsView.v", "Race/Generated_Accesses.v"]
 CLASS = "unsynchronised-access"
 SNAPSHOT = os.path.join(vlib.VERIF, "corpus", "C15", "snapshot.json")
 
@@ -31,6 +31,15 @@ def known_waivers():
         if k.get("property") == "C15" and k.get("kind") == "known" and k.get("match", {}).get("class") == CLASS:
             out.append((k["match"]["fn"], k["match"]["loc"]))
     return out
+
+
+def benign_waivers():
+    """lockset-discipline violations that are ordered by something the table cannot express (go statement, channel,
+    reference count); each has a written justification in corpus/C15/benign.json (one is backed by a theorem)"""
+    try:
+        return [(b["fn"], b["loc"]) for b in json.load(open(os.path.join(vlib.VERIF, "corpus", "C15", "benign.json")))["benign"]]
+    except OSError:
+        return []
 
 
 def lockkey(l):
@@ -47,7 +56,9 @@ def pair_ok(a, b, singles):
         return True
     if not any((ca != cb or ca not in singles) for ca in a["classes"] for cb in b["classes"]):
         return True
-    return bool({lockkey(l) for l in a["locks"]} & {lockkey(l) for l in b["locks"]})
+    if {lockkey(l) for l in a["locks"]} & {lockkey(l) for l in b["locks"]}:
+        return True
+    return bool(set(a.get("before", [])) & set(b.get("after", []))) or bool(set(b.get("before", [])) & set(a.get("after", [])))
 
 
 def guard_of(table, loc):
@@ -83,7 +94,7 @@ def parse_pairs(out, name):
 def canary(ctx, binp):
     """translator self-test: a small package with every construct the analysis claims to understand (branches with
     early unlock, loops with break/continue, defer, callee summaries, hand-off to a goroutine, timers, select/switch,
-    reassignment, wrong object, sort callbacks, globals, singleton goroutines); the table must be exactly the reviewed one"""
+    reassignment, wrong object, sort callbacks, globals, singleton goroutines, sync.Map ownership + close/receive signals); the table must be exactly the reviewed one"""
     d = os.path.join(vlib.HARNESS, "cmd", "lockx", "testdata", "canary")
     out = os.path.join(ctx.tmp, "canary.json")
     rc, log = vlib.sh([binp, "-pkg", "./cmd/lockx/testdata/canary", "-json", out, vlib.HARNESS], env=vlib.goenv(), timeout=300, cwd=ctx.tmp)
@@ -91,10 +102,10 @@ def canary(ctx, binp):
     if rc == 0 and os.path.exists(out):
         t = json.load(open(out))
         exp = json.load(open(os.path.join(d, "expect.json")))
-        got = [[e["fn"], e["loc"], e["kind"], e["init"], [lockkey(l) for l in e["locks"]], int(e["pos"].split(":")[1]), e["classes"]] for e in t["entries"]]
+        got = [[e["fn"], e["loc"], e["kind"], e["init"], [lockkey(l) for l in e["locks"]], int(e["pos"].split(":")[1]), e["classes"], e["before"], e["after"]] for e in t["entries"]]
         singles = sorted(c["name"] for c in t["classes"] if c["single"])
         diff = [x for x in got if x not in exp["entries"]] + [x for x in exp["entries"] if x not in got]
-        ok = not diff and singles == exp["singles"] and t["entry_locks"] == exp["entry_locks"] and not t["type_errors"]
+        ok = not diff and singles == exp["singles"] and t["entry_locks"] == exp["entry_locks"] and t["signals"] == exp["signals"] and not t["type_errors"]
         detail = str(diff[:6]) + str(singles) + str(t["type_errors"][:3])
     ctx.obligation("translator self-test: lockx reproduces the reviewed table of its canary package (%d sites)" % (len(exp["entries"]) if ok else 0), ok, detail)
     if not ok:
@@ -109,7 +120,7 @@ def run_lockx(ctx, findings):
     canary(ctx, binp)
     d = os.path.join(ctx.tmp, "coqrun")
     os.makedirs(d, exist_ok=True)
-    waive = ";".join("%s|%s" % w for w in known_waivers())
+    waive = ";".join("%s|%s" % w for w in known_waivers() + benign_waivers())
     jpath, vpath = os.path.join(d, "table.json"), os.path.join(d, "Generated_Accesses.v")
     t = time.time()
     rc, out = vlib.sh([binp, "-waive", waive, "-json", jpath, "-coq", vpath, vlib.REPO], env=vlib.goenv(), timeout=600, cwd=d)
@@ -163,7 +174,7 @@ def run_lockx(ctx, findings):
     rc, out2 = vlib.sh(coqc + [os.path.join(d, "Thm.v")], cwd=d, timeout=900)
     closed, axioms = vlib.parse_assumptions(out2)
     ctx.axioms |= axioms
-    ctx.obligation("C15_sched_race_free re-proved against the regenerated table (lockset_ok_except waived = true by vm_compute; %d recorded findings excluded)" % len(known_waivers()),
+    ctx.obligation("C15_sched_race_free re-proved against the regenerated table (lockset_ok_except waived = true by vm_compute; %d recorded findings and %d justified orderings excluded)" % (len(known_waivers()), len(benign_waivers())),
                    rc == 0 and not axioms, out2)
     ctx.extra["bad_pairs"] = len(bad_all)
     ctx.extra["bad_pairs_not_waived"] = len(bad_w)
@@ -220,7 +231,7 @@ def run_lockx(ctx, findings):
         need.append("PsHandler reads the map and the runners in different critical sections %s" % sorted(map(str, ps_secs)))
     ps_seen = any(e["fn"] == "Server.PsHandler" and e["loc"] == "Scheduler.loaded" for e in E)
     ctx.obligation("torn-view preconditions: PsHandler walks `loaded` and every teardown/insert runs under loadedMu", ps_seen and not need, str(need))
-    unknown = [k for k in findings if not vlib.match_known(ctx.known, {"class": CLASS, "loc": k[1], "fn": k[0]})]
+    unknown = [k for k in findings if k not in set(benign_waivers()) and not vlib.match_known(ctx.known, {"class": CLASS, "loc": k[1], "fn": k[0]})]
     if need and not unknown:
         ctx.mismatch("Race/PsView: the atomic Teardown/snapshot steps of the model no longer match the critical sections of the code (torn /api/ps view possible)", {}, {"need": need})
     if not ps_seen:
@@ -263,6 +274,14 @@ def show(m):
     return {"method": "POST", "path": "/api/show", "body": {"model": "m%d" % m}}
 
 
+def show_name(name):
+    return {"method": "POST", "path": "/api/show", "body": {"model": name}}
+
+
+def gen_name(name):
+    return {"method": "POST", "path": "/api/generate", "body": {"model": name, "prompt": "hi", "stream": False, "keep_alive": 0}}
+
+
 def copy(m, dst):
     return {"method": "POST", "path": "/api/copy", "body": {"source": "m%d" % m, "destination": dst}}
 
@@ -275,6 +294,20 @@ def create(name, m):
     return {"method": "POST", "path": "/api/create", "body": {"model": name, "from": "m%d" % m, "stream": False}}
 
 
+def pull(i, cancel_us=0):
+    r = {"method": "POST", "path": "/api/pull", "body": {"model": "reg.test/library/p%d" % i, "insecure": True, "stream": False}}
+    if cancel_us:
+        r["cancel_us"] = cancel_us
+    return r
+
+
+def push(name, cancel_us=0):
+    r = {"method": "POST", "path": "/api/push", "body": {"model": name, "insecure": True, "stream": False}}
+    if cancel_us:
+        r["cancel_us"] = cancel_us
+    return r
+
+
 def blob_post(content):
     import hashlib
     return {"method": "POST", "path": "/api/blobs/sha256:" + hashlib.sha256(content.encode()).hexdigest(), "raw": content}
@@ -284,10 +317,22 @@ def blob_head(rng):
     return {"method": "HEAD", "path": "/api/blobs/sha256:" + "".join(rng.choice("0123456789abcdef") for _ in range(64))}
 
 
-def hunt_cases(ctx, rounds):
-    """escalation when the static side found something new: hammer /api/ps while runners are torn down"""
+def hunt_cases(ctx, rounds, locs=()):
+    """escalation when the static side found something new: hammer /api/ps while runners are torn down, or - for the
+    transfer structures - concurrent pulls / pushes of a shared layer with impatient clients"""
     rng = ctx.rng
     out = []
+    if any(l.startswith("blob") for l in locs):
+        for i in range(max(2, rounds // 2)):
+            head = rng.choice([5000, 20000, 30000])
+            reg = {"models": 4, "layer_kb": 128, "head_us": head, "chunk_us": 2000}
+            w = [[pull(j % 2)] for j in range(3)] + [[pull(j % 4, int(head * rng.uniform(1.1, 2.2)))] for j in range(5)]
+            out.append({"id": "hunt-pull-%d" % i, "klass": "hunt-transfer", "rounds": 1, "timeout_ms": 8000, "deadline_ms": 12000, "models": 1, "max_loaded": 1,
+                        "gpu": "cpu", "load_us": 100, "comp_us": 100, "workers": w, "registry": reg})
+            w = [[copy(0, "reg.test/library/q%d" % j), push("reg.test/library/q%d" % j, 0 if j < 3 else int(head * rng.uniform(1.1, 2.5)))] for j in range(7)]
+            out.append({"id": "hunt-push-%d" % i, "klass": "hunt-transfer", "rounds": 1, "timeout_ms": 8000, "deadline_ms": 12000, "models": 1, "max_loaded": 1,
+                        "gpu": "cpu", "load_us": 100, "comp_us": 100, "workers": w, "registry": dict(reg, models=1, layer_kb=64)})
+        return out
     for i in range(rounds):
         k = rng.randint(1, 3)
         w = [[gen((j + x) % k, 0) for x in range(40)] for j in range(3)] + [[PS] * 300] * 6
@@ -311,7 +356,7 @@ def gen_cases(ctx):
                 cases.append(json.loads(line))
     except OSError:
         pass
-    reps = 3 if q else 40
+    reps = 2 if q else 40
     n = 12 if q else 24
     for _ in range(reps):
         k = rng.randint(2, 3)
@@ -335,6 +380,24 @@ def gen_cases(ctx):
              [x for i in range(n // 2) for x in (create("n%d" % i, i % k), gen(i % k, 0), delete("n%d" % i))],
              [blob_post("blob-%d" % (i % 3)) for i in range(n)], [blob_post("blob-%d" % (i % 3)) for i in range(n)]]
         add("admin-mix", models=k, max_loaded=2, gpu="cpu", load_us=200, comp_us=100, workers=w)
+        # the same few names created / copied / shown / listed / deleted from several connections at once
+        names = ["x", "y"]
+        w = [[x for i in range(n // 2) for x in (copy(rng.randrange(k), rng.choice(names)), show_name(rng.choice(names)), TAGS, delete(rng.choice(names)))] for _ in range(3)]
+        w += [[x for i in range(n // 3) for x in (create(rng.choice(names), rng.randrange(k)), gen_name(rng.choice(names)), delete(rng.choice(names)))] for _ in range(2)]
+        add("names-overlap", models=k, max_loaded=2, gpu="cpu", load_us=100, comp_us=50, workers=w)
+    # transfers (server/download.go, upload.go): fake registry + CDN; every pulled model shares one layer
+    for _ in range(1 if q else 10):
+        head = rng.choice([2000, 10000, 30000])
+        reg = {"models": 4, "layer_kb": rng.choice([64, 512]), "head_us": head, "chunk_us": rng.choice([1000, 5000])}
+        w = [[pull(j % 4)] for j in range(6)]
+        add("pull-shared-layer", models=1, max_loaded=1, gpu="cpu", load_us=100, comp_us=100, workers=w, registry=reg, timeout_ms=8000, deadline_ms=12000)
+        head = rng.choice([20000, 30000])
+        reg = {"models": 4, "layer_kb": 128, "head_us": head, "chunk_us": 2000}
+        w = [[pull(0)], [pull(1)]] + [[pull(2 + j % 2, int(head * rng.uniform(1.1, 2.2)))] for j in range(6)]
+        add("pull-cancel", models=1, max_loaded=1, gpu="cpu", load_us=100, comp_us=100, workers=w, registry=reg, timeout_ms=8000, deadline_ms=12000)
+        reg = {"models": 1, "layer_kb": 64, "head_us": head, "chunk_us": 3000}
+        w = [[copy(0, "reg.test/library/q%d" % j), push("reg.test/library/q%d" % j, 0 if j < 3 else int(head * rng.uniform(1.1, 2.5)))] for j in range(7)]
+        add("push-shared-layer", models=1, max_loaded=1, gpu="cpu", load_us=100, comp_us=100, workers=w, registry=reg, timeout_ms=8000, deadline_ms=12000)
     return cases
 
 
@@ -434,7 +497,7 @@ def run_dynamic(ctx, table, findings, cases=None, repeat=1):
     if len(obs) < expected:
         # the process died (e.g. `fatal error: concurrent map iteration and map write` cannot be recovered)
         fatal = re.search(r"(fatal error: [^\n]*|panic: [^\n]*)", err)
-        where = re.findall(r"\n(github.com/ollama/ollama/server\.[^\n(]*)\(", err)
+        where = re.findall(r"\n(github\.com/ollama/ollama/server\.[^\s]+)\(", err)
         sig = {"class": "crash", "what": re.sub(r"0x[0-9a-f]+", "", fatal.group(1)) if fatal else "process ended early rc=%s" % rc,
                "fn": go_fn(where[0]) if where else ""}
         ctx.violation(sig, "the server process crashed while serving concurrent requests: %s" % sig["what"],
@@ -509,7 +572,12 @@ def run_dynamic(ctx, table, findings, cases=None, repeat=1):
 # ------------------------------------------------------------------ the check
 
 def report(ctx, findings):
+    benign = set(benign_waivers())
     for (fn, loc), f in sorted(findings.items()):
+        if (fn, loc) in benign and not f["races"]:
+            ctx.count("finding:benign-justified")
+            ctx.extra.setdefault("benign_seen", []).append("%s x %s" % (fn, loc))
+            continue
         confirmed = bool(f["races"])
         static = bool(f["pairs"])
         what = "%s accesses %s without the mutex that guards it (%s)%s%s" % (
@@ -533,15 +601,17 @@ def run(ctx, cases=None, repeat=1):
                        "safe_init: accesses to a freshly allocated object before its publication happen-before all accesses by other goroutines (publication through a lock/channel)",
                        "one Scheduler per process; Scheduler.Run is called once (checked: exactly one call site) so processPending/processCompleted are single goroutines",
                        "standard-library callees do not publish their arguments to other goroutines",
-                       "locations outside the tracked set (structs without a mutex field: LlmRequest, Model, blobDownload/blobUpload; sync.Map/atomic fields) are covered only by the race-detector runs"]
+                       "the goroutine for which sync.Map.LoadOrStore returns loaded=false is the only owner of the stored object until it hands it on with `go x.M()`; a channel field that is never sent to is only ever closed by that owner",
+                       "corpus/C15/benign.json: pairs ordered by a go statement / channel round trip / reference count that the table cannot express (written justification each; scheduleRunner x llama by theorem C15_refcount_read_ordered under C01's invariant)",
+                       "locations outside the tracked set (structs without any sync/atomic/channel field, e.g. Model, Layer, registryOptions) are covered only by the race-detector runs; atomics and sync.Map are synchronised by construction"]
     ctx.proof_stage(["Race"], "Race/Properties_C15.v", extra_targets=["Race/PsView.v", "Race/Lockset.v", "Race/Tight.v"])
     findings = {}
     table = run_lockx(ctx, findings)
     run_dynamic(ctx, table, findings, cases, repeat)
-    new = [k for k in findings if not vlib.match_known(ctx.known, {"class": CLASS, "loc": k[1], "fn": k[0]})]
+    new = [k for k in findings if k not in set(benign_waivers()) and not vlib.match_known(ctx.known, {"class": CLASS, "loc": k[1], "fn": k[0]})]
     if cases is None and (ctx.mismatches or [k for k in new if not findings[k]["races"]]) and not [v for v in ctx.violations if v["sig"].get("class") in ("panic", "crash", "torn-view")]:
         ctx.log("static side found something new: searching dynamically for a concrete schedule")
-        run_dynamic(ctx, table, findings, hunt_cases(ctx, 6 if ctx.quick() else 30), 1)
+        run_dynamic(ctx, table, findings, hunt_cases(ctx, 6 if ctx.quick() else 30, [k[1] for k in new]), 1)
     report(ctx, findings)
     if not ctx.quick():
         ctx.coqchk(["V.Race.Properties_C15"])
@@ -568,7 +638,9 @@ MANIFEST = {
     "level_claimed": {
         "category": "proof",
         "text": "Coq theorem (proved once, all interleavings): in any well-formed trace of goroutines doing lock/unlock/fork-with-lock-hand-off/read/write, if every pair of "
-                "conflicting accesses from goroutines that can run concurrently holds a common mutex then every such pair is ordered by happens-before (no data race). "
+                "conflicting accesses from goroutines that can run concurrently holds a common mutex (real, or the ownership token of a sync.Map entry handed on by `go`) or is "
+                "separated by a close()/receive signal of the accessed object, then every such pair is ordered by happens-before (no data race); converse (tightness) and a "
+                "reference-count ordering theorem (hypothesis: C01's refcount invariant) also proved. "
                 "The access table (site, goroutine classes, must-hold lockset) is regenerated from server/*.go by a go/ast+go/types translator on every run and the executable "
                 "lockset check is re-evaluated on it inside Coq (vm_compute); the theorem is re-instantiated with the regenerated table. /api/ps torn view: invariant over all "
                 "publish/teardown sequences of the loaded map. Partial by nature: the translator and the safe-publication hypothesis are trusted, recorded findings are excluded by "
